@@ -80,6 +80,24 @@ check("C16", "other",
       "typed-AST shape analysis of the pre-pass; SSA access-path analysis of error literals; abstract evaluation of the delimiter helper over the lexer grammar's name characters; grammar-derived name rules",
       "DESIGN.md section 3 (E9), section 4 (C16)")
 
+check("C01", "other",
+      "Structural necessary conditions of the round trip decided statically: producer/consumer agreement on protobuf oneofs between DSL listener and printer (a wrapper literal must carry the payload its consumers test); printer handles all six rewrite variants; operator printers are reachable only through the parenthesising sub-relation printer or the top level; literal/enum/operator spelling tables agree with the lexer grammar; condition expression stored and printed verbatim modulo surrounding whitespace; the printable-position predicate recurses exactly into difference base and first child of union/intersection.",
+      "Identity of the composed function on every program is NOT decided (needs running parser and printer). Trusted: generated getters return the wrapper payload.",
+      "go/types oneof universe + composite-literal/consumer contradiction check; call-graph who-may-call rule; constant-format shape analysis; SSA access-path recursion targets; grammar literal tables",
+      "DESIGN.md section 3 (E1, E5), section 4 (C01)")
+
+check("C02", "other",
+      "Structural necessary conditions decided statically on the printer: relation text is returned only under occurrences()==0 or occurrences()==1 && isFirstPosition(own rewrite), every direct-assignment branch counts on one shared validator; recursion targets of the position predicate; all printer failures are the documented constructors; hoisting returns its argument or a fresh x[p]++x[:p]++x[p+1:]; operand loops complete; every part of a restriction is considered on every path; enum/literal tables in both directions; IsRelationAssignable handles all operator variants; the printer does not write its input.",
+      "Correctness of isFirstPosition as a predicate over all trees and re-parse equality are NOT decided. One known finding (TYPE_NAME_ANY has no DSL spelling) is listed in known-findings.json.",
+      "SSA dominator/guard-shape analysis; slice-construction shape analysis; error-origin slicing; may-point-to purity; grammar literal tables",
+      "DESIGN.md section 3 (E1, E5), section 4 (C02)")
+
+check("C03", "other",
+      "Structural necessary conditions decided statically: the pre-pass only blanks full-line comments, cuts at the first ' #', trims trailing blanks and keeps one line per line; the listener overrides real interface methods, reads every grammar label and consults every operator alternative; operand lists are never sub-slices sharing storage with a list in use; the rewrite stack is reset/pushed/popped exactly as the parentheses of the grammar; the embedded lexer/parser automata accept the identifier, whitespace, line-end and keyword-as-name shapes the property enumerates (membership evaluated on the automaton).",
+      "That grammar plus callbacks compute the intended tree for every layout is NOT decided (needs running the parser).",
+      "typed-AST shape analysis of the pre-pass; go/types method-set comparison; SSA slice-origin classification of operand-list stores; automaton membership on the decoded ATN",
+      "DESIGN.md section 3 (E9, E1, E8), section 4 (C03)")
+
 _PENDING = "static check not built yet in this round; see DESIGN.md section 4 for the planned clauses"
 for _p in ["C01","C02","C03","C05","C06","C07","C08","C09","C10","C11","C12","C13","C14","C15","C16","C17","C18"]:
     if _p not in CHECKS:
